@@ -51,8 +51,13 @@ func init() {
 		"internal/godebug.(*Setting).IncNonDefault": nop,
 
 		// sync
-		"(*sync.Mutex).Lock":      nop,
-		"(*sync.Mutex).Unlock":    nop,
+		"(*sync.Mutex).Lock": func(fr *frame, args []value) value { fr.i.x.locked++; return nil },
+		"(*sync.Mutex).Unlock": func(fr *frame, args []value) value {
+			if fr.i.x.locked > 0 {
+				fr.i.x.locked--
+			}
+			return nil
+		},
 		"(*sync.Mutex).TryLock":   func(fr *frame, args []value) value { return true },
 		"(*sync.RWMutex).Lock":    nop,
 		"(*sync.RWMutex).Unlock":  nop,
@@ -289,6 +294,8 @@ func extOnceDo(fr *frame, args []value) value {
 	if doneCell != nil {
 		*doneCell = uint32(1)
 	}
+	fr.i.x.locked++
+	defer func() { fr.i.x.locked-- }()
 	call(fr.i, fr, token.NoPos, args[1], nil)
 	return nil
 }
